@@ -14,6 +14,9 @@ mod c27;
 mod c22;
 mod c23;
 mod c26;
+mod c12;
+mod c13;
+mod c24;
 mod lean;
 mod report;
 mod rng;
@@ -74,6 +77,9 @@ fn main() {
                 "C22" => c22::replay(&f["input"]),
                 "C23" => c23::replay(&f["input"]),
                 "C26" => c26::replay(&f["input"]),
+                "C12" => c12::replay(&f["input"]),
+                "C13" => c13::replay(&f["input"]),
+                "C24" => c24::replay(&f["input"]),
                 _ => "replay not implemented for this property".to_string(),
             };
             println!("input: {}\n{}", f["input"], out);
@@ -107,6 +113,9 @@ fn main() {
         "C22" => c22::run(&tier, seed, widen),
         "C23" => c23::run(&tier, seed, widen),
         "C26" => c26::run(&tier, seed, widen),
+        "C12" => c12::run(&tier, seed, widen),
+        "C13" => c13::run(&tier, seed, widen),
+        "C24" => c24::run(&tier, seed, widen),
         _ => {
             eprintln!("unknown property {prop}");
             std::process::exit(2);
